@@ -10,6 +10,7 @@ import (
 	"net"
 	"os"
 	"path/filepath"
+	"strconv"
 	"strings"
 	"sync"
 	"sync/atomic"
@@ -137,8 +138,32 @@ func unixPath(tag string) string {
 // listenAddr returns the gnet address string for a fresh listener of this configuration. TCP/UDP listeners
 // get a port that was free a moment ago (found by binding port 0 once): with SO_REUSEPORT every event loop
 // opens its own listener from the address STRING, so ":0" would give every loop a different port.
+var portCtr atomic.Int64
+
 func (c cfg) listenAddr() string {
 	probe := func(network, host string) int {
+		// listening ports come from a slice of 20000-31999 that belongs to this process (by pid), below the kernel's
+		// ephemeral range: two checks running at the same time never hand each other's just-released port to an engine
+		// (with SO_REUSEPORT both would even bind it and share each other's connections)
+		base := 20000 + (os.Getpid()%60)*200
+		for k := 0; k < 200; k++ {
+			port := base + int(portCtr.Add(1))%200
+			addr := net.JoinHostPort(host, strconv.Itoa(port))
+			if strings.HasPrefix(network, "udp") {
+				pc, err := net.ListenPacket(network, addr)
+				if err != nil {
+					continue
+				}
+				_ = pc.Close()
+				return port
+			}
+			l, err := net.Listen(network, addr)
+			if err != nil {
+				continue
+			}
+			_ = l.Close()
+			return port
+		}
 		if strings.HasPrefix(network, "udp") {
 			pc, err := net.ListenPacket(network, net.JoinHostPort(host, "0"))
 			if err != nil {
